@@ -219,6 +219,18 @@ def replay_generic(ctx: Ctx, doc: dict) -> int:
             m, s = ctx.driver.ask([f"gen ser {cname} {san} {doc['object']}", f"gen wire {cname} {san} {doc['object']}"])
             print("model now:", m[:200])
             print("XML reading now:", s[:200])
+            try:
+                o = genlib.unrender(case.run, doc["object"])
+                real = genlib.do_ser(case.run.get_class(cname), o, bool(san))
+                print("impl now:", real[:200])
+                if real.startswith("ok ") and s.startswith("ok ") and real.split(" ")[1] != s.split(" ")[1]:
+                    print("  the generated serializer does not write what the XML prescribes")
+                    bad = 1
+                if real != m:
+                    print("  model and generated code disagree")
+                    bad = 1
+            except Exception as ex:  # noqa: BLE001
+                print("impl now: could not rebuild the object:", repr(ex)[:200])
         if cname and "bytes" in doc:
             data = bytes.fromhex(doc["bytes"]) if doc["bytes"] != "-" else b""
             ch = bool(doc.get("chunked", False))
@@ -227,7 +239,7 @@ def replay_generic(ctx: Ctx, doc: dict) -> int:
             print("impl:", real[:300])
             print("model:", m[:300])
             print("XML reading:", s[:300])
-            bad = real != m
+            bad = bad or real != m
         return 1 if bad else 0
     finally:
         close_case(case)
@@ -376,6 +388,13 @@ def run_c01(ctx: Ctx):
                     ctx.sig((hash(cname) % 7, len(data) // 8, ro.count(" O "), " N" in ro))
                     if genlib.render_nosize(back) != genlib.render_nosize(obj) or reader.remaining != 0 or reader.position != len(data) \
                             or back.byte_size != len(data):
+                        # The generator of "wire-unambiguous" specifications is ours and may be wrong; the property's
+                        # domain is the one the theorem `spec_roundtrip` is stated over.  A pair outside it that does
+                        # not round-trip is a fault of the sampler, not of the code: counted, never an alarm.
+                        dom0 = ctx.driver.ask([f"gen rtdomain {cname} {ro.rsplit(' ', 1)[0]} 0"])[0]
+                        if dom0.startswith("ok ") and dom0 != "ok unambiguous 1 rtvalue 1":
+                            ctx.count("outside_theorem_domain.roundtrip_differs")
+                            continue
                         fails(ctx, case, f"{cname}: round trip of {ro[:200]} through {common.tohex(data)} gives {rb[:200]} "
                               f"(remaining {reader.remaining}, byte_size {back.byte_size}, {len(data)} bytes written)",
                               {"class": cname, "object": ro, "bytes": common.tohex(data), "back": rb})
